@@ -103,7 +103,6 @@ def check(tier, seed, runs, workers, secs):
         n = min(cfg["chunk"], cfg["runs"] - i)
         chunks.append((i, n))
         i += n
-    hash_every = 1 if tier == "quick" else 50
     deadline = t_start + cfg["secs"]
     results, crashes = [], []
     skipped = [0]
@@ -114,7 +113,7 @@ def check(tier, seed, runs, workers, secs):
             skipped[0] += 1
             return None
         out = os.path.join(work, "chunk-%d.json" % start)
-        rc, text = run_chunk(binary, ["run", "--seed", str(seed), "--start", str(start), "--count", str(n), "--hash-every", str(hash_every)], out)
+        rc, text = run_chunk(binary, ["run", "--seed", str(seed), "--start", str(start), "--count", str(n)] + V.hash_args(tier), out)
         if rc != 0 or not os.path.exists(out):
             crashes.append(dict(start=start, count=n, rc=rc, output=text[-2000:]))
             return None
@@ -147,26 +146,7 @@ def check(tier, seed, runs, workers, secs):
             samples.extend(d["samples"][: 2 - len(samples)])
 
     # determinism self-check
-    det = dict(rechecked=0, mismatches=0)
-    if hashes:
-        idxs = sorted(hashes)
-        step = hash_every
-        block = max(step, (cfg["recheck"] // 2) * step)
-        starts = [idxs[0], idxs[len(idxs) // 2] + (cfg["chunk"] // 2 // step) * step]
-        for s0 in starts:
-            s0 -= s0 % step
-            out = os.path.join(work, "recheck-%d.json" % s0)
-            rc, text = run_chunk(binary, ["run", "--seed", str(seed), "--start", str(s0), "--count", str(block), "--hash-every", str(step), "--max-violations", "1000000"], out)
-            if rc != 0 or not os.path.exists(out):
-                continue
-            with open(out) as f:
-                d = json.load(f)
-            for i, h in d["hashes"]:
-                i = int(i)
-                if i in hashes:
-                    det["rechecked"] += 1
-                    if hashes[i] != h:
-                        det["mismatches"] += 1
+    det = V.recheck_determinism(binary, [], seed, hashes, tier, cfg, work, workers, with_inflight=False)
 
     mt.join()
 
